@@ -10,6 +10,12 @@ Variable panics_inside : string -> list val -> bool.
 Variable mutating : string -> bool.
 Hypothesis meth_pure : forall fs f args ret fs', mutating f = false -> meth fs f args = Ok (ret, fs') -> fs' = fs.
 
+Lemma flat_var_pure : forall x, flat_var x = true -> pure_var mutating x = true.
+Proof.
+  induction x as [r|x' IH g|x' IH sel]; intros H; simpl in H; try discriminate; [reflexivity|].
+  change (pure_var mutating x' = true). auto.
+Qed.
+
 Lemma flat_pure :
   (forall e, flat_expr e = true -> pure_expr mutating e = true) /\
   (forall a, flat_atom a = true -> pure_atom mutating a = true).
@@ -23,7 +29,7 @@ Proof.
   - intros o l IHl r IHr H. simpl in H. apply andb_prop in H. destruct H as [A B].
     change (pure_expr mutating l && pure_expr mutating r = true). rewrite (IHl A), (IHr B). reflexivity.
   - intros c H. reflexivity.
-  - intros x _ H. simpl in H. destruct x as [n|x' n|x' s]; try discriminate. destruct x'; try discriminate. reflexivity.
+  - intros x _ H. simpl in H. change (pure_var mutating x = true). apply flat_var_pure. exact H.
   - intros f l _ H. discriminate.
   - intros a _ f l _ H. discriminate.
   - intros a _ n H. discriminate.
@@ -44,8 +50,7 @@ Proof.
   split; [apply Pe; exact Hw|].
   apply Forall_forall. intros st Hst. rewrite forallb_forall in Ht. specialize (Ht st Hst).
   destruct st as [x o e|a]; simpl in *.
-  - apply andb_prop in Ht. destruct Ht as [A B]. split; [|apply Pe; exact B].
-    destruct x as [n|x' n|x' s]; try discriminate. destruct x'; try discriminate. reflexivity.
+  - apply andb_prop in Ht. destruct Ht as [A B]. split; [apply flat_var_pure; exact A|apply Pe; exact B].
   - destruct a; try discriminate. apply flat_elist_pure. exact Ht.
 Qed.
 
@@ -75,7 +80,7 @@ Theorem C14_flat : C14_statement rules meth panics_inside mutating es c order.
 Proof. exact (C14_proved rules meth panics_inside mutating meth_pure Hok Hdep es keys_nodup c order order_perm). Qed.
 End FT.
 
-(* ---- the flat class is not empty: a three-rule set that runs several cycles ---- *)
+(* ---- the flat class is not empty: a three-rule set (top-level name, fields, a nested field) that runs several cycles ---- *)
 Definition fv (r f : string) : var := VMember (VName r) f.
 Definition flat_example : list rule :=
   [{| rname := "Count"%string; rdesc := ""%string; rsal := 0;
@@ -83,11 +88,11 @@ Definition flat_example : list rule :=
                          (EParen true (EBin OEq (EAtom (AVar (fv "F" "S"))) (EAtom (AConst (CStr "stop")))));
       rthen := [SAssign (fv "F" "I") AsAdd (EAtom (AConst (CInt 1)))] |};
    {| rname := "Mark"%string; rdesc := ""%string; rsal := 5;
-      rwhen := EBin OGTE (EAtom (AVar (fv "F" "I"))) (EAtom (AVar (fv "G" "Limit")));
+      rwhen := EBin OGTE (EAtom (AVar (fv "F" "I"))) (EAtom (AVar (VMember (fv "G" "Cfg") "Limit")));
       rthen := [SAssign (fv "F" "S") AsSet (EBin OAdd (EAtom (AVar (fv "F" "S"))) (EAtom (AConst (CStr "!"))));
                 SAtom (AFunc "Retract" (ECons (EAtom (AConst (CStr "Mark"))) ENil))] |};
    {| rname := "Done"%string; rdesc := ""%string; rsal := -1;
-      rwhen := EAtom (ANeg (AVar (fv "G" "Open")));
+      rwhen := EBin OOr (EAtom (ANeg (AVar (fv "G" "Open")))) (EBin OGT (EAtom (AVar (VName "N"))) (EAtom (AConst (CInt 5))));
       rthen := [SAtom (AFunc "Complete" ENil)] |}].
 Example flat_example_is_flat : flat_rules flat_example = true.
 Proof. reflexivity. Qed.
@@ -96,7 +101,8 @@ Proof. reflexivity. Qed.
    and ends at quiescence with F.I = 3 and F.S = "go!" *)
 Definition flat_facts : facts :=
   [("F"%string, FPtr (Some (FStruct [("I"%string, FV (VInt I64 0)); ("S"%string, FV (VStr "go"))])));
-   ("G"%string, FPtr (Some (FStruct [("Limit"%string, FV (VInt I64 2)); ("Open"%string, FV (VBool true))])))].
+   ("G"%string, FPtr (Some (FStruct [("Cfg"%string, FPtr (Some (FStruct [("Limit"%string, FV (VInt I64 2))]))); ("Open"%string, FV (VBool true))])));
+   ("N"%string, FV (VInt I64 1))].
 Definition flat_entries : list entry :=
   map (fun r => {| e_key := rname r; e_name := rname r; e_sal := rsal r; e_retracted := false; e_deleted := false |}) flat_example.
 Definition flat_run :=
